@@ -28,6 +28,8 @@ import IsoDT.Driver.RecText
 import IsoDT.Driver.TruncQ
 import IsoDT.Driver.ConstructTrunc
 import IsoDT.Driver.StrptimeZone
+import IsoDT.Driver.RecurrenceQ
+import IsoDT.Driver.DurTextAlt
 
 open IsoDT IsoDT.Model
 open IsoDT.Spec (Date TZ TP)
@@ -347,6 +349,8 @@ def extDispatch (toks : List String) : Option String :=
   <|> IsoDT.Driver.TruncQ.dispatch toks
   <|> IsoDT.Driver.ConstructTrunc.dispatch toks
   <|> IsoDT.Driver.StrptimeZone.dispatch toks
+  <|> IsoDT.Driver.RecurrenceQ.dispatch toks
+  <|> IsoDT.Driver.DurTextAlt.dispatch toks
   -- <|> IsoDT.Driver.Foo.dispatch toks
 
 def dispatch (toks : List String) : String :=
